@@ -1,7 +1,7 @@
 (* Properties/C13.v -- Disabled encodation modes are never used (the parts that are theorems). *)
 From Coq Require Import Arith NArith List Bool.
 From DM Require Import Generated.Symbols Generated.ModeTables Model.Outcome Model.SymbolList Model.Planner Model.PlannerRun Model.Enc
-  Proofs.PlanShape Proofs.EncLatch.
+  Model.Api Spec.Stream16022 Proofs.PlanShape Proofs.EncLatch Proofs.EncAscii Proofs.AsciiMinimal.
 Import ListNotations.
 Local Open Scope N_scope.
 
@@ -31,6 +31,17 @@ Theorem C13_fallback_is_ascii : forall e,
   e_encodation (set_ascii_until_end e) = Ascii.
 Proof. exact set_ascii_until_end_latch. Qed.
 Print Assumptions C13_fallback_is_ascii.
+
+(* (iii) the stream-level statement as a theorem for the ASCII-only configuration: with every mode but ASCII disabled,
+   no codeword of the data part of the stream (everything before the padding) is a latch to C40, Base256, X12, Text or
+   EDIFACT -- every byte string, every list, every admissible sort *)
+Theorem C13_ascii_only_no_latch : forall sorter data symbols cw s,
+  (forall k l l', sorter symbols k l = Ok l' -> incl l' l) -> bytes_ok data = true ->
+  encode_data_internal (optimize_fn sorter) data symbols None 1 false false = Ok (cw, s) ->
+  exists stream_part npad, cw = stream_part ++ pad (N.of_nat (length stream_part)) npad /\
+    Forall (fun c => ~ In c [230; 231; 238; 239; 240]) stream_part.
+Proof. exact ascii_only_no_latch. Qed.
+Print Assumptions C13_ascii_only_no_latch.
 
 (* what is NOT a theorem yet: that the codewords the six mode encoders write never contain, in ASCII context, a
    value that a reference decoder reads as a latch (this is the stream-level statement C02/T_enc); the check
